@@ -22,7 +22,16 @@ def tok(rng):
 
 
 def render(rng, toks):
-    style = rng.choice(["join", "dq", "mixed"])
+    style = rng.choice(["join", "dq", "mixed", "bare"])
+    if style == "bare":
+        # unquoted words: under POSIX splitting every character except whitespace, quotes and backslash is literal
+        # (# ; | & $ * ? ~ = { } < > ! ` % included: the command is not run by a shell)
+        words = ["".join(ch for ch in t if ch not in " \t'\"\\") for t in toks]
+        words = [w for w in words if w] or [rng.choice(["--color=#ff0000", "a#b", "#", "x;y|z&w", "$HOME", "*.txt", "~/d", "k=v"])]
+        if rng.random() < 0.5:
+            words.append(rng.choice(["--color=#ff0000", "run#3", "#tag", "http://h/p#frag", "a;b", "$X"]))
+        body = rng.choice([" ", "  ", "\t"]).join(words)
+        return style, body
     if style == "join":
         body = shlex.join(toks)
     elif style == "dq":
